@@ -490,4 +490,111 @@ theorem font_value_M (hist : List Op) (pre f : Nat)
     Spec.run_cons_nonfatal _ _ _ (by rfl)]
   exact Spec.font_value _ pre f
 
+/-! ## The purely syntactic form: unprefixed assignments are undone -/
+
+/-- `\globaldefs` has its initial value 0 in every environment on the stack. -/
+def NoGD (s : Spec) : Prop :=
+  s.cur.var globaldefsVar = none ∧ ∀ e ∈ s.saved, e.var globaldefsVar = none
+
+theorem NoGD_init : NoGD Spec.init := ⟨rfl, by simp [Spec.init]⟩
+
+theorem NoGD.update {s : Spec} (h : NoGD s) (sc : Scope) (f : Env → Env)
+    (hf : ∀ e, (f e).var globaldefsVar = e.var globaldefsVar) : NoGD (s.update sc f) := by
+  cases sc with
+  | loc => exact ⟨by simp only [Spec.update, hf]; exact h.1, h.2⟩
+  | glob =>
+    refine ⟨by simp only [Spec.update, hf]; exact h.1, ?_⟩
+    intro e he
+    simp only [Spec.update, List.mem_map] at he
+    obtain ⟨e0, he0, rfl⟩ := he
+    rw [hf]; exact h.2 e0 he0
+
+theorem NoGD.step {s : Spec} (h : NoGD s) (op : Op) (hop : op.noGlobaldefs = true) :
+    NoGD (s.step op).1 := by
+  cases op with
+  | beginGroup =>
+    refine ⟨h.1, ?_⟩
+    intro e he
+    simp only [Spec.step, List.mem_cons] at he
+    rcases he with rfl | he
+    · exact h.1
+    · exact h.2 e he
+  | endGroup =>
+    obtain ⟨cur, saved⟩ := s
+    cases saved with
+    | nil => exact h
+    | cons e rest =>
+      refine ⟨h.2 e (by simp), ?_⟩
+      intro e' he'
+      have he'' : e' ∈ rest := he'
+      exact h.2 e' (by simp [he''])
+  | assign pre v x =>
+    simp only [Op.noGlobaldefs, decide_eq_true_eq] at hop
+    refine h.update _ _ ?_
+    intro e
+    have : ¬ v = globaldefsVar := hop
+    simp [Spec.setVarEnv, fupd, this]
+  | define pre t d =>
+    simp only [Spec.step]
+    cases Spec.resolveDef s.cur d with
+    | none => exact h
+    | some c => exact h.update _ _ (fun e => by cases t <;> rfl)
+  | selectFont pre f => exact h.update _ _ (fun _ => rfl)
+  | read t => exact h
+
+theorem NoGD.run {s : Spec} (h : NoGD s) (ops : List Op) (hops : ∀ op ∈ ops, op.noGlobaldefs = true) :
+    NoGD (s.run ops).1 := by
+  induction ops generalizing s with
+  | nil => exact h
+  | cons op ops ih =>
+    have h1 := h.step op (hops op (by simp))
+    simp only [Spec.run]
+    by_cases hf : (s.step op).2.fatal = true
+    · simp only [hf, if_true]; exact h1
+    · have hf' : (s.step op).2.fatal = false := by simpa using hf
+      simp only [hf', Bool.false_eq_true, if_false]
+      exact ih h1 (fun o ho => hops o (by simp [ho]))
+
+theorem Op.plain_noGlobaldefs (op : Op) (h : op.plain = true) : op.noGlobaldefs = true := by
+  cases op <;> simp_all [Op.plain, Op.noGlobaldefs]
+
+theorem NoGD.globalTarget {s : Spec} (h : NoGD s) (op : Op) (hop : op.plain = true) :
+    Spec.globalTarget s op = none := by
+  have hg : s.globalDefs = 0 := by simp only [Spec.globalDefs, h.1]
+  cases op with
+  | beginGroup => rfl
+  | endGroup => rfl
+  | read t => rfl
+  | assign pre v x =>
+    simp only [Op.plain, Bool.and_eq_true, decide_eq_true_eq] at hop
+    simp [Spec.globalTarget, hg, hop.1, Spec.effScope]
+  | selectFont pre f =>
+    simp only [Op.plain, decide_eq_true_eq] at hop
+    simp [Spec.globalTarget, hg, hop, Spec.effScope]
+  | define pre t d =>
+    simp only [Op.plain, Bool.and_eq_true, decide_eq_true_eq] at hop
+    simp only [Spec.globalTarget, hg, hop.1, Spec.effScope]
+    cases Spec.resolveDef s.cur d with
+    | none => rfl
+    | some c => cases d <;> simp_all [defScope]
+
+theorem NoGD.globals {s : Spec} (h : NoGD s) (blk : List Op) (hblk : ∀ op ∈ blk, op.plain = true) :
+    Spec.globals s blk = [] := by
+  induction blk generalizing s with
+  | nil => rfl
+  | cons op blk ih =>
+    have hp := hblk op (by simp)
+    simp only [Spec.globals, h.globalTarget op hp]
+    exact ih (h.step op (Op.plain_noGlobaldefs op hp)) (fun o ho => hblk o (by simp [ho]))
+
+theorem close_restores_plain_M (hist blk : List Op) (t : Target)
+    (hnf : ∀ o ∈ (run .fixed VMState.init hist).2, o.fatal = false)
+    (hh : ∀ op ∈ hist, op.noGlobaldefs = true)
+    (hb : Bal blk) (hp : ∀ op ∈ blk, op.plain = true) :
+    valOf (run .fixed VMState.init (hist ++ .beginGroup :: (blk ++ [.endGroup]))).1 t =
+      valOf (run .fixed VMState.init hist).1 t := by
+  have h0 : NoGD ((Spec.init.run hist).1.step .beginGroup).1 :=
+    (NoGD_init.run hist hh).step .beginGroup rfl
+  exact (close_restores_M hist blk t hnf hb (by rw [h0.globals blk hp]; simp)).2
+
 end C01
